@@ -290,7 +290,7 @@ def key_length_sweep(out, vname="prod"):
         tool, bb, L, order, key = job
         outp = os.path.join(wd, "c10-tools-%s-%d-%d-%d.out" % (tool, bb, L, order))
         exp = outp + ".exp"
-        g = [["-b", str(bb * 8)], ["-k", key.hex()]]
+        g = [["-b", str(bb * 8)], ["-k", spell_hex(random.Random(L * 131 + bb + order), key)]]      # the key is spelled in one of the five accepted styles (separators, case)
         if order == 1:
             g.reverse()
         if order == 2:      # -k given twice (an earlier key of the maximum length): the last one counts, or the tool may refuse the command line
